@@ -6,6 +6,13 @@ import core
 from core import Fraction, frac, rat, ratlist, hexs
 from translate import plotmodes
 
+MODELLED = ["evo/tools/plot.py:plot_mode_to_idx", "evo/tools/plot.py:prepare_axis", "evo/tools/plot.py:traj",
+            "evo/tools/plot.py:add_start_end_markers", "evo/tools/plot.py:colored_line_collection",
+            "evo/tools/plot.py:traj_colormap", "evo/tools/plot.py:draw_coordinate_axes",
+            "evo/tools/plot.py:draw_correspondence_edges", "evo/tools/plot.py:traj_xyz", "evo/tools/plot.py:traj_rpy",
+            "evo/tools/plot.py:speeds", "evo/tools/plot.py:trajectories", "evo/tools/plot.py:error_array",
+            "evo/core/trajectory.py:calc_speed", "evo/core/units.py:Unit"]
+
 RULE = ("cases = (trajectory of 2..500 poses [+ second trajectory], plot mode, length unit, with/without timestamps, start time, "
         "start/end markers, marker scale, colour array, error array / x array / cumulative); every plotting function of the anchor "
         "is called on fresh Agg figures and the data of the Line2D/Line3D/LineCollection/Line3DCollection/PathCollection artists "
@@ -756,6 +763,7 @@ def evaluate(ctx, cases):
 
 def check(ctx):
     lean = core.lean_side(ctx.prop, ctx.tier, pre_build=plotmodes.regenerate)
+    core.drift(ctx, MODELLED)
     cases = list(gen_cases(ctx))
     evaluate(ctx, cases)
     core.shrink_all(ctx, shrink, evaluate, budget=60)
